@@ -26,7 +26,7 @@ ASSUMPTIONS = [
     'annotation-name validity = Kubernetes qualified name: optional DNS-subdomain prefix (<=253) + "/" + name (<=63, alnum at both ends, [-_.A-Za-z0-9] inside)',
     'name validity is only demanded when the prefix is <= 189 characters (documented limit)',
 ]
-BUDGET = {'quick': 300, 'thorough': 15000}
+BUDGET = {'quick': 300, 'thorough': 4000}
 FUZZ_RUNS = {'thorough': 8000}     # inputs per process of the coverage-guided stage (tools/fuzz.py), 16 processes
 MAX_SHARDS = 16
 
